@@ -440,7 +440,7 @@ def _pristine_results(text: str, other_text: str | None, clients: list[list[dict
     image (one fresh parse per operation, so operations cannot influence each other either)."""
     from detsim import world
 
-    world.install_log_sink()
+    world.reference_process_state()
     out: dict[str, Any] = {}
     for ci, ops in enumerate(clients):
         for k, op in enumerate(ops):
